@@ -61,6 +61,17 @@ def _run_dual(ctx, spec, rng):
     cplx = bool(rng.integers(0, 2))
     a_ops = [gen.rmat(rng, (dout, din), cplx) for _ in range(r)]
     b_ops = a_ops if cls == "cp" else ([(-1) ** i * a for i, a in enumerate(a_ops)] if cls == "hp" else [gen.rmat(rng, (dout, din), cplx) for _ in range(r)])
+    if spec[1] % 8 == 3 and cls == "cp":
+        # classical channel: Kraus operators sqrt(P[j|i]) |j><i| for a random stochastic matrix P - the Choi matrix is exactly diagonal
+        pm = rng.random((dout, din)) + 0.05
+        pm /= pm.sum(axis=0, keepdims=True)
+        a_ops = []
+        for j_ in range(dout):
+            for i_ in range(din):
+                k_ = np.zeros((dout, din), dtype=complex if cplx else float)
+                k_[j_, i_] = np.sqrt(pm[j_, i_])
+                a_ops.append(k_)
+        b_ops, r, cls = a_ops, len(a_ops), "cp-classical"
     if spec[1] % 8 == 5 and din == dout and din > 1:
         # nearly (but not) Hermitian Kraus operators: H + eps N, eps far above rounding and far below any "is it Hermitian" tolerance
         eps = float(rng.choice([1e-6, 1e-7]))
